@@ -21,7 +21,7 @@ ASSUMPTIONS = [
 ]
 
 def plan(tier):
-    return dict(runs=2400 if tier == 'quick' else 48000, timeout=300 if tier == 'quick' else 3600)
+    return dict(runs=2400 if tier == 'quick' else 48000, timeout=900 if tier == 'quick' else 7200)
 
 def make_family(ctx):
     rng = ctx.rng('workload')
